@@ -187,6 +187,54 @@ def secant_correspondence(ctx, viol, distinct):
     return len(jobs)
 
 
+def post_geometry_three_ways(ctx, viol):
+    """the synaptic current is converted with the membrane area of the POST compartment of the run: giving that
+    compartment's radius / length by set(), by data_set (param_state) or as a trainable (params) must give the same
+    voltages (the conversion must read the run's parameters, not the module's table)"""
+    import numpy as np
+    import jax.numpy as jnp
+    import jaxley as jx
+    from simlib import quiet
+    from jaxley.connect import connect
+    from jaxley.synapses import IonotropicSynapse, TestSynapse
+    from jaxley.channels import Leak
+    rng = ctx.rng
+    n = 0
+    for rep in range(ctx.budget(2, 6)):
+        key = ["radius", "length"][rep % 2]
+        val = [2.5, 23.0][rep % 2] * rng.choice([0.5, 1.0, 2.0])
+        syn_cls = [IonotropicSynapse, TestSynapse][(rep // 2) % 2]
+        outs = {}
+        for how in ("set", "data_set", "trainable"):
+            with quiet():
+                comp = jx.Compartment()
+                net = jx.Network([jx.Cell([jx.Branch([comp] * 2)], parents=[-1]) for _ in range(2)])
+                net.insert(Leak())
+                connect(net.cell(0).branch(0).comp(1), net.cell(1).branch(0).comp(0), syn_cls())
+                net.cell(0).branch(0).comp(0).stimulate(jnp.asarray([0.2] * 40))
+                net.cell(0).set("v", -20.0)                      # presynaptic side active
+                net.cell(1).branch(0).comp(0).record("v")
+                net.cell(1).branch(0).comp(1).record("v")
+                post = net.cell(1).branch(0).comp(0)
+                kw = {}
+                if how == "set":
+                    post.set(key, val)
+                elif how == "data_set":
+                    kw["param_state"] = post.data_set(key, val, None)
+                else:
+                    post.make_trainable(key)
+                    kw["params"] = [{key: jnp.asarray([val])}]
+                outs[how] = np.asarray(jx.integrate(net, delta_t=0.025, **kw))
+            n += 1
+        ref = outs["set"]
+        for how in ("data_set", "trainable"):
+            if outs[how].shape != ref.shape or not np.allclose(outs[how], ref, rtol=0, atol=1e-9 * max(1.0, float(np.abs(ref).max()))):
+                viol.append({"kind": "the post compartment's geometry given by " + how + " instead of set() changes the voltages (synaptic current converted with another membrane area?)",
+                             "key": key, "value": val, "synapse": syn_cls.__name__,
+                             "maxdiff": float(np.abs(outs[how] - ref).max()) if outs[how].shape == ref.shape else None, "finding_class": None})
+    return n
+
+
 def run(ctx):
     import numpy as np
     import jaxley as jx
@@ -317,6 +365,11 @@ def run(ctx):
         import traceback
         viol.append({"kind": "synapse selection section raised", "error": repr(ex)[:300], "trace": traceback.format_exc()[-500:]})
     import regress
+    try:
+        evals += post_geometry_three_ways(ctx, viol)
+    except Exception as ex:
+        import traceback
+        viol.append({"kind": "post-geometry cases raised", "error": repr(ex)[:300], "trace": traceback.format_exc()[-600:]})
     evals += regress.run("C09", viol)
     for v in viol:
         v.setdefault("finding_class", None)
